@@ -75,7 +75,7 @@ func funcKey(f *types.Func) string {
 			t = pt.Elem()
 		}
 		if n, ok := t.(*types.Named); ok {
-			return rel + "|" + n.Obj().Name() + "." + f.Name()
+			return rel + "|" + TypeRecordedName(n.Obj()) + "." + f.Name()
 		}
 		return ""
 	}
@@ -114,6 +114,7 @@ func declaredFuncs(tp *types.Package) []*types.Func {
 
 // resolveRenames fills p.renamed (current object -> recorded key).
 func (p *Program) resolveRenames() {
+	p.resolveTypeRenames()
 	p.renamed = map[*types.Func]string{}
 	p.byRecorded = map[string]*types.Func{}
 	if len(RecordedFuncs) == 0 {
